@@ -124,10 +124,12 @@ def run(tier, seed, escalate=False):
 
 
 # ------------------------------------------------------------------ the same numbers stored in another dtype
-from oracles import dtype_independence, merge_oracle
+from oracles import dtype_independence, merge_oracle, history_independence
 from common import np, dnp
 DTYPE_CASES = [("fourier_transform", lambda d, dim: dnp.fourier_transform(d, dim), "t2"),
     ("fourier_transform-noshift-zf2", lambda d, dim: dnp.fourier_transform(d, dim, zero_fill_factor=2, shift=False), "t2"),
+    ("fourier_transform-ppm-noshift", lambda d, dim: dnp.fourier_transform(d, dim, shift=False, convert_to_ppm=True), "t2"),
+    ("fourier_transform-hz-noshift", lambda d, dim: dnp.fourier_transform(d, dim, shift=False, convert_to_ppm=False), "t2"),
     ("inverse_fourier_transform", lambda d, dim: dnp.inverse_fourier_transform(d, dim), "f2"),
     ("roundtrip", lambda d, dim: dnp.inverse_fourier_transform(dnp.fourier_transform(d, dim), "f2"), "t2")]
 _run_before_dtype = run
@@ -138,4 +140,6 @@ def run(tier, seed, escalate=False):
     the processed axis give the result of the float64 object (a dtype the function refuses is not judged)"""
     res = _run_before_dtype(tier, seed, escalate)
     f, n = dtype_independence("C09", DTYPE_CASES, seed, dim_positions=(1,) if tier == "quick" and not escalate else (0, 1, 2))
-    return merge_oracle(res, f, n, "storage_dtype_variants")
+    res = merge_oracle(res, f, n, "storage_dtype_variants")
+    f, n = history_independence("C09", DTYPE_CASES, seed)
+    return merge_oracle(res, f, n, "call_history_cases")
